@@ -28,27 +28,27 @@ func initFns(pkg *ssa.Package) []*ssa.Function {
 }
 
 type EntrySpec struct {
-	Dir       string            `json:"dir"`
-	Entry     string            `json:"entry"`
-	Tier      string            `json:"tier"` // quick | thorough | both
-	Mode      string            `json:"mode"` // R | F
-	Solver    string            `json:"solver"`
-	Unwind    int               `json:"unwind"`
-	MaxPaths  int               `json:"max_paths"`
-	TimeoutMs int               `json:"timeout_ms"`
-	ForkMap   bool              `json:"fork_map_order"`
-	AllowCuts bool              `json:"allow_cuts"`
-	CutReason string            `json:"cut_reason"`
-	Redirects map[string]string `json:"redirects"`
-	Desc      string            `json:"desc"`
-	Bounds    string            `json:"bounds"`
-	Race      bool              `json:"race"`
-	Overflow  bool              `json:"overflow"`
-	Tol       float64           `json:"tol"`
-	Schedule  bool              `json:"schedule"` // C16: collect access traces and run the schedule query
-	MaxEnum   int               `json:"max_enum"`
-	NoValidate bool             `json:"no_validate"`
-	ExpectNd  bool              `json:"expect_no_nondeterminism"`
+	Dir        string            `json:"dir"`
+	Entry      string            `json:"entry"`
+	Tier       string            `json:"tier"` // quick | thorough | both
+	Mode       string            `json:"mode"` // R | F
+	Solver     string            `json:"solver"`
+	Unwind     int               `json:"unwind"`
+	MaxPaths   int               `json:"max_paths"`
+	TimeoutMs  int               `json:"timeout_ms"`
+	ForkMap    bool              `json:"fork_map_order"`
+	AllowCuts  bool              `json:"allow_cuts"`
+	CutReason  string            `json:"cut_reason"`
+	Redirects  map[string]string `json:"redirects"`
+	Desc       string            `json:"desc"`
+	Bounds     string            `json:"bounds"`
+	Race       bool              `json:"race"`
+	Overflow   bool              `json:"overflow"`
+	Tol        float64           `json:"tol"`
+	Schedule   bool              `json:"schedule"` // C16: collect access traces and run the schedule query
+	MaxEnum    int               `json:"max_enum"`
+	NoValidate bool              `json:"no_validate"`
+	ExpectNd   bool              `json:"expect_no_nondeterminism"`
 }
 
 type CheckSpec struct {
@@ -395,7 +395,7 @@ func cmdCheck(args []string) int {
 				break
 			}
 			p := filepath.Join(os.TempDir(), fmt.Sprintf("gosym-witness-%d-%s-%d-%d.json", os.Getpid(), id, ei, i))
-			witnessJobs = append(witnessJobs, ReplayJob{Dir: es.Dir, Entry: es.Entry, Script: w.Script, Tol: es.Tol, Path: p})
+			witnessJobs = append(witnessJobs, ReplayJob{Dir: es.Dir, Entry: es.Entry, Script: w.Script, Tol: es.Tol, Path: p, Real: es.Mode != "F"})
 			witnessObs[p] = w.Observed
 			witnessEntry[p] = len(reports)
 		}
@@ -419,7 +419,7 @@ func cmdCheck(args []string) int {
 	// ---- native replay of counter-examples and witness validation (one go test per package) ----
 	var jobs []ReplayJob
 	for _, c := range cands {
-		jobs = append(jobs, ReplayJob{Dir: c.spec.Dir, Entry: c.spec.Entry, Script: c.v.Script, Tol: c.spec.Tol, Path: c.path})
+		jobs = append(jobs, ReplayJob{Dir: c.spec.Dir, Entry: c.spec.Entry, Script: c.v.Script, Tol: c.spec.Tol, Path: c.path, Real: c.spec.Mode != "F"})
 	}
 	needRace := false
 	for _, c := range cands {
@@ -640,6 +640,9 @@ func compareObs(engine []ObservedVal, native []ObservedVal, tol float64) string 
 				return fmt.Sprintf("observation %q: engine %v, native %v", e.Tag, e.B, n.B)
 			}
 		case "Float":
+			if e.UF {
+				continue
+			}
 			d := math.Abs(e.F - n.F)
 			if d > tol*math.Max(math.Abs(e.F), math.Abs(n.F)) && d > 1e-9 {
 				return fmt.Sprintf("observation %q: engine %v, native %v", e.Tag, e.F, n.F)
@@ -660,6 +663,7 @@ func cmdReplay(repo, root, id, path string) int {
 		Dir    string      `json:"dir"`
 		Script []ScriptVal `json:"script"`
 		Tol    float64     `json:"tol"`
+		Real   bool        `json:"real_model"`
 	}
 	if err := json.Unmarshal(b, &rf); err != nil {
 		fmt.Println("bad replay file:", err)
@@ -667,7 +671,7 @@ func cmdReplay(repo, root, id, path string) int {
 	}
 	tmp := filepath.Join(os.TempDir(), fmt.Sprintf("gosym-replay-%d.json", os.Getpid()))
 	defer os.Remove(tmp)
-	res, log, err := RunReplays(repo, root, []ReplayJob{{Dir: rf.Dir, Entry: rf.Entry, Script: rf.Script, Tol: rf.Tol, Path: tmp}}, false, 10*time.Minute)
+	res, log, err := RunReplays(repo, root, []ReplayJob{{Dir: rf.Dir, Entry: rf.Entry, Script: rf.Script, Tol: rf.Tol, Path: tmp, Real: rf.Real}}, false, 10*time.Minute)
 	if err != nil || res[tmp] == nil {
 		fmt.Println("replay failed:", err, log)
 		return 2
